@@ -64,5 +64,6 @@ Proof.
     unfold no_own_algebra in H. rewrite forallb_forall in H. specialize (H g Ig).
     apply andb_true_iff in H as [H0 H]. apply negb_true_iff in H0.
     unfold group_model. rewrite H0. destruct (g_vars g); [|discriminate]. cbn.
+    destruct (nonempty (g_pushed g)); [reflexivity|]. cbn.
     apply forallb_forall. intros y Iy. apply repeat_spec in Iy. subst. apply obs_eqb_refl.
 Qed.
